@@ -141,6 +141,9 @@ theorem codeAdd_none {S : Type} [BEq S] (x y : CodeOrigin S)
 example : CodeOrigin.add (S := Nat) ⟨7, ⟨⟨0, 1, 0⟩, ⟨2, 1, 2⟩⟩⟩ ⟨7, ⟨⟨2, 1, 2⟩, ⟨3, 1, 3⟩⟩⟩
     = some ⟨7, ⟨⟨0, 1, 0⟩, ⟨3, 1, 3⟩⟩⟩ := by decide
 example : CodeOrigin.add (S := Nat) ⟨7, ⟨⟨0, 1, 0⟩, ⟨2, 1, 2⟩⟩⟩ ⟨8, ⟨⟨2, 1, 2⟩, ⟨3, 1, 3⟩⟩⟩ = none := by decide
+/-- when the other operand is NOT a code origin the method defers to `Origin.__add__` (the `super()` call): the translation
+of the function body under a failing `isinstance(other, CodeOrigin)` test is `none` for all arguments -/
+theorem codeAdd_other_none {S : Type} [BEq S] (x y : CodeOrigin S) : CodeOrigin.add_other x y = none := by grind
 
 /-! ## Part 2 — merge / `+` / concat / MultiOrigin / fqn / get_raw (hand-written model) -/
 
